@@ -93,6 +93,12 @@ func genValueAsFunctionWrapper(n *node) func(*frame) reflect.Value {
 }
 
 func genValueAs(n *node, t reflect.Type) func(*frame) reflect.Value {
+	if n.rval.IsValid() && isConstantValue(n.rval.Type()) {
+		// Convert the constant itself: exact value, rounded once to the precision of t.
+		if v, err := (typecheck{}).convertConst(n.rval, t); err == nil {
+			return func(*frame) reflect.Value { return v }
+		}
+	}
 	value := genValue(n)
 
 	return func(f *frame) reflect.Value {
